@@ -214,6 +214,19 @@ CHECKS = {
         'every prefixed / explicitly un-namespaced (URI, name) pair alone; the serialisation reparses to the same namespace rules and pairs.',
         'Trusted: ref_ns in checks/c15.py; None == "" for names parsed without default namespace (pinned by the repository tests).',
     ),
+    'C11': (
+        'model_checking',
+        'exhaustive enumeration of histories of length <=2 over the table of all public DOM mutators x staged rejection menus on a sheet holding every rule kind, with a full observation vector compared around every rejected call; every mutator on every class constructed read-only',
+        'DESIGN.md 3/C11',
+        '24 target objects (sheet, every rule kind, declaration block, properties, property value and a value item, selector list and selectors, media '
+        'lists and query, nested rules, margin rule) x 70 mutators x their argument menus (accepted texts and texts rejected immediately, after an accepted '
+        'prefix, or in a nested object; wrong rule kinds, bad indexes, undeclared prefixes): each call is made on the parsed seed state and on every '
+        'distinct state reached by one accepted mutation of the same target (thorough: also of the sheet). Whenever xml.dom.DOMException is raised the '
+        'observation vector - sheet text, encoding, namespaces, per rule: kind, text, selector texts, property tuples, media text, nested rules, parent '
+        'links - must be identical before and after. 17 classes constructed read-only x every mutator: nothing may change. The rejected-operation '
+        'clauses of the C09, C10, C15, C16 and C17 searches cover the same property on their state spaces.',
+        'Trusted: the observation vector reads only public accessors; only DOM exceptions are judged (foreign exception types are counted in the evidence).',
+    ),
 }
 
 PENDING = {}
